@@ -36,6 +36,9 @@ func buildNodeDigest(
 			action.Outs = meta.outs
 			action.DockerOut = meta.dockerOut
 		}
+		if fs, ok := n.rule.(*fileSet); ok {
+			action.FileNodes = fs.fileNodes(env)
+		}
 		d, err := makeDigest("build_action", "", action)
 		if err != nil {
 			return "", errcode.Annotate(err, "digest build action")
